@@ -17,11 +17,18 @@ Mirrors, function by function (read next to the Rust):
                         and the corresponding arms of `compile` (eager compilation of both operands, `r2`/`r3` inspected
                         only where the Rust code applies `?`).
 
-Outside this model (`CErr.outside`): `context`, slots, unknowns, `like`, `is`, `has`/`.`, sets, records, extension calls,
-`isEmpty`, `in`, `contains*`, `hasTag/getTag`, extension-typed terms.
+SECOND FRAGMENT (`SFrag2`): record terms / record term types (`recNil`/`recCons`), `context` (`compile_var`), attribute
+access `e.a` and `e has a` on RECORD-typed terms (`compile_attrs_of`, `compile_has_attr`, `compile_get_attr`, factory
+`record_get`, `is_some`), the context term of a FLAT context type as `Term::from_value` builds it (`ctxTermOf`: required
+attribute ↦ literal, optional present ↦ `some lit`, optional absent ↦ `none ty`).
+
+Outside this model (`CErr.outside`): slots, unknowns, `like`, `is`, `has`/`.` on ENTITY-typed terms, sets, record
+literals, extension calls, `isEmpty`, `in`, `contains*`, `hasTag/getTag`, extension-typed terms, non-flat contexts.
 -/
 namespace Cedar.SymC
 open Cedar
+
+abbrev Attr := String
 
 inductive TermType where
   | bool
@@ -29,6 +36,10 @@ inductive TermType where
   | string
   | entity (ety : EntityType)
   | option (ty : TermType)
+  /-- `TermType::Record { rty : BTreeMap<Attr, TermType> }` as its sorted listing, inlined as cons cells (a nested
+      `List` would lose `deriving DecidableEq`): `recNil` = the empty map, `recCons a ty rest` = entry `a ↦ ty` then `rest` -/
+  | recNil
+  | recCons (a : Attr) (ty : TermType) (rest : TermType)
 deriving DecidableEq, Repr, Inhabited
 
 inductive TermPrim where
@@ -42,6 +53,7 @@ inductive Op where
   | not | and | or | eq | ite
   | bvneg | bvadd | bvsub | bvmul | bvslt | bvsle | bvnego | bvsaddo | bvssubo | bvsmulo
   | optionGet
+  | recordGet (a : Attr)
 deriving DecidableEq, Repr, Inhabited
 
 /-- `Term`; `App { op, args, ret_ty }` with 1, 2 or 3 arguments -/
@@ -49,6 +61,9 @@ inductive Term where
   | prim (p : TermPrim)
   | none (ty : TermType)
   | some (t : Term)
+  /-- `Term::Record(BTreeMap<Attr, Term>)`, sorted listing as cons cells (see `TermType.recCons`) -/
+  | recNil
+  | recCons (a : Attr) (t : Term) (rest : Term)
   | app1 (op : Op) (a : Term) (retTy : TermType)
   | app2 (op : Op) (a b : Term) (retTy : TermType)
   | app3 (op : Op) (a b c : Term) (retTy : TermType)
@@ -65,6 +80,8 @@ def Term.typeOf : Term → TermType
   | .prim p => p.typeOf
   | .none ty => .option ty
   | .some t => .option t.typeOf
+  | .recNil => .recNil
+  | .recCons a t rest => .recCons a t.typeOf rest.typeOf
   | .app1 _ _ ty => ty
   | .app2 _ _ _ ty => ty
   | .app3 _ _ _ _ ty => ty
@@ -74,11 +91,37 @@ def Term.isLiteral : Term → Bool
   | .prim _ => true
   | .none _ => true
   | .some t => t.isLiteral
+  | .recNil => true
+  | .recCons _ t rest => t.isLiteral && rest.isLiteral
   | _ => false
 
 def TermType.isPrimType : TermType → Bool
   | .bool | .bitvec64 | .string | .entity _ => true
-  | .option _ => false
+  | _ => false
+
+def TermType.isOptionType : TermType → Bool
+  | .option _ => true
+  | _ => false
+
+def TermType.isRecordType : TermType → Bool
+  | .recNil | .recCons _ _ _ => true
+  | _ => false
+
+/-- the term is a `Term::Record` (a well-formed cons spine) -/
+def Term.isRecord : Term → Bool
+  | .recNil => true
+  | .recCons _ _ rest => rest.isRecord
+  | _ => false
+
+/-- `BTreeMap::get` on the fields of a `Term::Record` -/
+def recFind? : Term → Attr → Option Term
+  | .recCons a t rest, b => if a == b then some t else recFind? rest b
+  | _, _ => none
+
+/-- `BTreeMap::get` on the fields of a `TermType::Record` -/
+def tyFind? : TermType → Attr → Option TermType
+  | .recCons a ty rest, b => if a == b then some ty else tyFind? rest b
+  | _, _ => none
 
 def TermType.isEntityType : TermType → Bool
   | .entity _ => true
@@ -206,6 +249,17 @@ def optionGet (t : Term) : Term :=
     | .option ty => .app1 .optionGet t ty
     | _ => t
 
+/-- `factory::record_get` -/
+def recordGet (t : Term) (a : Attr) : Term :=
+  if t.isRecord then
+    match recFind? t a with
+    | some ta => ta
+    | none => t
+  else
+    match tyFind? t.typeOf a with
+    | some ty => .app1 (.recordGet a) t ty
+    | none => t
+
 /-- the fall-through arm of `factory::is_none` -/
 def isNoneDefault (t : Term) : Term :=
   match t.typeOf with
@@ -224,6 +278,9 @@ def isNone (t : Term) : Term :=
     | .none _, .some _ => g
     | _, _ => isNoneDefault t
   | t => isNoneDefault t
+
+/-- `factory::is_some` -/
+def isSome (t : Term) : Term := fnot (isNone t)
 
 /-- `factory::if_false` -/
 def ifFalse (g t : Term) : Term := fite g (noneOf t.typeOf) (someOf t)
@@ -244,6 +301,8 @@ structure SymEnvLit where
   action : EntityUID
   resource : EntityUID
   etys : List (EntityType × Option (List String))
+  /-- `SymRequest::context`: on a literal environment the record term `Term::from_value(context, context_type)` -/
+  context : Term
 deriving Repr, Inhabited
 
 def lookupEty (etys : List (EntityType × Option (List String))) (ty : EntityType) : Option (Option (List String)) :=
@@ -258,14 +317,52 @@ def SymEnvLit.isValidEntityUID (env : SymEnvLit) (uid : EntityUID) : Bool :=
   | some none => true
   | none => false
 
-/-- the literal environment of a concrete request (entity-type table given separately: it comes from the schema) -/
+/-- the literal environment of a concrete request WITHOUT its context (entity-type table given separately: it comes from
+    the schema).  The context slot holds a non-record dummy, so `compile_var` rejects `context` on it. -/
 def litEnv (req : Request) (etys : List (EntityType × Option (List String))) : SymEnvLit :=
-  { principal := req.principal, action := req.action, resource := req.resource, etys := etys }
+  { principal := req.principal, action := req.action, resource := req.resource, etys := etys, context := .prim (.bool false) }
+
+/-- the literal environment with the context term `ctxT` (what `Term::from_value(req.context, context_type)` builds) -/
+def litEnv2 (req : Request) (etys : List (EntityType × Option (List String))) (ctxT : Term) : SymEnvLit :=
+  { litEnv req etys with context := ctxT }
+
+/-- the context attribute types the model covers (FLAT contexts: primitive attribute types) -/
+inductive CtxAttrTy where
+  | bool | long | string | entity (ety : EntityType)
+deriving DecidableEq, Repr, Inhabited
+
+def CtxAttrTy.termType : CtxAttrTy → TermType
+  | .bool => .bool
+  | .long => .bitvec64
+  | .string => .string
+  | .entity ety => .entity ety
+
+/-- `Term::from_literal` -/
+def termOfPrim : Prim → Term
+  | .bool b => .prim (.bool b)
+  | .int i => .prim (.bitvec (BitVec.ofInt 64 i))
+  | .string s => .prim (.string s)
+  | .entityUID uid => .prim (.entity uid)
+
+/-- the `Record` arm of `Term::from_value` for a flat context type `attrs` (sorted by attribute name, `required` flag):
+    required attribute ↦ its literal, optional present ↦ `some lit`, absent ↦ `none ty`.
+    `none` = `SymbolizeError` (a non-primitive value) -/
+def ctxTermOf (ctx : List (Attr × Value)) : List (Attr × CtxAttrTy × Bool) → Option Term
+  | [] => some .recNil
+  | (a, ty, required) :: rest =>
+    match ctxTermOf ctx rest with
+    | none => none
+    | some restT =>
+      match lookupKV ctx a with
+      | some (.prim p) => some (.recCons a (if required then termOfPrim p else someOf (termOfPrim p)) restT)
+      | some _ => none
+      | none => some (.recCons a (noneOf ty.termType) restT)
 
 /-! ### compiler.rs -/
 
 inductive CErr where
   | typeError       -- `CompileError::TypeError`
+  | noSuchAttr      -- `CompileError::NoSuchAttribute`
   | outside         -- construct outside this model (NOT a Rust outcome)
 deriving DecidableEq, Repr, Inhabited
 
@@ -292,7 +389,37 @@ def compileVar (v : Var) (env : SymEnvLit) : CResult :=
   | .resource =>
     let t : Term := .prim (.entity env.resource)
     if t.typeOf.isEntityType then .ok (someOf t) else .error .typeError
-  | .context => .error .outside
+  | .context =>
+    if env.context.typeOf.isRecordType then .ok (someOf env.context) else .error .typeError
+
+/-- `compile_attrs_of` (entity-typed terms need `SymEntities::attrs`: outside this model) -/
+def compileAttrsOf (t : Term) : CResult :=
+  match t.typeOf with
+  | .entity _ => .error .outside
+  | .recNil | .recCons _ _ _ => .ok t
+  | _ => .error .typeError
+
+/-- `compile_has_attr` -/
+def compileHasAttr (t : Term) (a : Attr) : CResult :=
+  match compileAttrsOf t with
+  | .error e => .error e
+  | .ok attrs =>
+    if attrs.typeOf.isRecordType then
+      match tyFind? attrs.typeOf a with
+      | some ty => if ty.isOptionType then .ok (someOf (isSome (recordGet attrs a))) else .ok (someOf tTrue)
+      | none => .ok (someOf tFalse)
+    else .error .typeError
+
+/-- `compile_get_attr` -/
+def compileGetAttr (t : Term) (a : Attr) : CResult :=
+  match compileAttrsOf t with
+  | .error e => .error e
+  | .ok attrs =>
+    if attrs.typeOf.isRecordType then
+      match tyFind? attrs.typeOf a with
+      | some ty => if ty.isOptionType then .ok (recordGet attrs a) else .ok (someOf (recordGet attrs a))
+      | none => .error .noSuchAttr
+    else .error .typeError
 
 /-- `compile_app1` -/
 def compileApp1 (op : UnaryOp) (t : Term) : CResult :=
@@ -402,6 +529,20 @@ def compile (env : SymEnvLit) : Expr → CResult
         match compileApp2 op (optionGet t1) (optionGet t2) with
         | .error e => .error e
         | .ok r => .ok (ifSome t1 (ifSome t2 r))
+  | .hasAttr a attr =>
+    match compile env a with
+    | .error e => .error e
+    | .ok t1 =>
+      match compileHasAttr (optionGet t1) attr with
+      | .error e => .error e
+      | .ok r => .ok (ifSome t1 r)
+  | .getAttr a attr =>
+    match compile env a with
+    | .error e => .error e
+    | .ok t1 =>
+      match compileGetAttr (optionGet t1) attr with
+      | .error e => .error e
+      | .ok r => .ok (ifSome t1 r)
   | _ => .error .outside
 
 /-! ### the declared fragment and the reading of a folded term -/
@@ -427,6 +568,46 @@ inductive SFrag : Expr → Prop where
   | add {a b : Expr} : SFrag a → SFrag b → SFrag (.binaryApp .add a b)
   | sub {a b : Expr} : SFrag a → SFrag b → SFrag (.binaryApp .sub a b)
   | mul {a b : Expr} : SFrag a → SFrag b → SFrag (.binaryApp .mul a b)
+
+/-- the second fragment: `SFrag` + `context`, `e.a`, `e has a` (on record-typed terms; FLAT contexts) -/
+inductive SFrag2 : Expr → Prop where
+  | litBool (b : Bool) : SFrag2 (.lit (.bool b))
+  | litInt (i : Int) (h : inI64 i = true) : SFrag2 (.lit (.int i))
+  | litString (s : String) : SFrag2 (.lit (.string s))
+  | litEntity (uid : EntityUID) : SFrag2 (.lit (.entityUID uid))
+  | principal : SFrag2 (.var .principal)
+  | action : SFrag2 (.var .action)
+  | resource : SFrag2 (.var .resource)
+  | context : SFrag2 (.var .context)
+  | ite {c t e : Expr} : SFrag2 c → SFrag2 t → SFrag2 e → SFrag2 (.ite c t e)
+  | and {a b : Expr} : SFrag2 a → SFrag2 b → SFrag2 (.and a b)
+  | or {a b : Expr} : SFrag2 a → SFrag2 b → SFrag2 (.or a b)
+  | not {a : Expr} : SFrag2 a → SFrag2 (.unaryApp .not a)
+  | neg {a : Expr} : SFrag2 a → SFrag2 (.unaryApp .neg a)
+  | eq {a b : Expr} : SFrag2 a → SFrag2 b → SFrag2 (.binaryApp .eq a b)
+  | less {a b : Expr} : SFrag2 a → SFrag2 b → SFrag2 (.binaryApp .less a b)
+  | lessEq {a b : Expr} : SFrag2 a → SFrag2 b → SFrag2 (.binaryApp .lessEq a b)
+  | add {a b : Expr} : SFrag2 a → SFrag2 b → SFrag2 (.binaryApp .add a b)
+  | sub {a b : Expr} : SFrag2 a → SFrag2 b → SFrag2 (.binaryApp .sub a b)
+  | mul {a b : Expr} : SFrag2 a → SFrag2 b → SFrag2 (.binaryApp .mul a b)
+  | getAttr {a : Expr} (attr : Attr) : SFrag2 a → SFrag2 (.getAttr a attr)
+  | hasAttr {a : Expr} (attr : Attr) : SFrag2 a → SFrag2 (.hasAttr a attr)
+
+/-- decidable version of `SFrag2`, for the driver -/
+def inFrag2 : Expr → Bool
+  | .lit (.int i) => inI64 i
+  | .lit _ => true
+  | .var _ => true
+  | .ite c t e => inFrag2 c && inFrag2 t && inFrag2 e
+  | .and a b => inFrag2 a && inFrag2 b
+  | .or a b => inFrag2 a && inFrag2 b
+  | .unaryApp .not a => inFrag2 a
+  | .unaryApp .neg a => inFrag2 a
+  | .binaryApp op a b =>
+    (match op with | .eq | .less | .lessEq | .add | .sub | .mul => true | _ => false) && inFrag2 a && inFrag2 b
+  | .getAttr a _ => inFrag2 a
+  | .hasAttr a _ => inFrag2 a
+  | _ => false
 
 /-- decidable version, for the driver -/
 def inFrag : Expr → Bool
